@@ -58,6 +58,9 @@ def with_metadata(root, rnd):
         k = Node(rnd.choice(["title", "zzInner"]), content=None)
         k.add_child(Node("zzDeep", content="x"))
         j.add_child(k)
+        # whatever hangs below metadata, tails included (text after the foreign element, as <metadata><u/>note</metadata> imports)
+        j.tail = rnd.choice([None, "note after the foreign element", "\n  ", "x", "\u00a0"])
+        k.tail = rnd.choice([None, "inner tail"])
         md.add_child(j)
 
 
